@@ -497,6 +497,23 @@ func c16R5(c *Ctx) {
 			if sel, ok := k.(*ast.SelectorExpr); ok && fieldOf(info, sel) == cacheF {
 				held := la.HeldBefore(sel)
 				_, ok := held[objID(recv)+".mu"]
+				if !ok && !isExported(fn.Decl.Name.Name) {
+					// a helper that requires the mutex held: judged at its call sites
+					sites := p.CallsTo(nil, fn.Obj)
+					if len(sites) > 0 && !p.valueReferenced(fn.Obj) {
+						for _, cs := range sites {
+							okSite := false
+							heldAt := NewLockAnalysis(p, cs.Fn).HeldBefore(cs.Call)
+							if rs, isSel := ast.Unparen(cs.Call.Fun).(*ast.SelectorExpr); isSel {
+								if ro := identObj(cs.Fn.Info(), rs.X); ro != nil {
+									_, okSite = heldAt[objID(ro)+".mu"]
+								}
+							}
+							c.Check(okSite, "C16.R5", fn.Key()+": cache access under the mutex (helper called with the mutex held, in "+cs.Fn.Key()+")", p.Pos(cs.Call), cs.Fn.Key(), "held ∋ g.mu at the call", heldAt.String())
+						}
+						return true
+					}
+				}
 				c.Check(ok, "C16.R5", fn.Key()+": cache access under the mutex", p.Pos(sel), fn.Key(), "held ∋ g.mu", held.String())
 			}
 			return true
